@@ -693,19 +693,21 @@ def freshEntries : IdDict → IdDict → Heap → IdDict × Heap
   | [], out, h => (out, h)
   | e :: r, out, h => freshEntries r (out ++ [(e.1, h.cals.length)]) (h.allocCal (h.calOf e.2)).2
 
+/-- `Config.from_array` / `SRRConfig.from_array`: a new config (with a new offsets array) holding the saved values -/
+def loadCfg (h : Heap) (c0 : Cfg) : Nat × Heap :=
+  match c0.offs with
+  | some o =>
+    let o' := h.allocOffs (h.offsOf o)
+    o'.2.allocCfg ⟨c0.scal, some o'.1⟩
+  | none => h.allocCfg ⟨c0.scal, none⟩
+
 /-- `npz.load(npz.save(laser))`: the loader builds new arrays, a new dict of new `Calibration` objects and
 a new config from the file and hands them to the constructor (which copies dict and config once more) -/
 def hRoundTrip (w : World) : Option World :=
   let d := copyArrs w.laser.data w.heap
   let e := freshEntries (d.2.dict w.laser.cal) [] d.2
   let g := e.2.allocDict e.1
-  let c0 := g.2.cfgOf w.laser.cfg
-  let k : Nat × Heap :=
-    match c0.offs with
-    | some o =>
-      let o' := g.2.allocOffs (g.2.offsOf o)
-      o'.2.allocCfg ⟨c0.scal, some o'.1⟩
-    | none => g.2.allocCfg ⟨c0.scal, none⟩
+  let k := loadCfg g.2 (g.2.cfgOf w.laser.cfg)
   hConstruct k.2 w.laser.srr d.1 (some g.1) (some k.1)
 
 /-! ### the calls -/
